@@ -69,6 +69,14 @@ def run_fee(rep, c, tier):
         q = c.solver.check(m.pc + [lemma], neq)
         rep.oblige(q == 'unsat')
         rep.nontrivial.add(key)
+        if tier == 'thorough':
+            # the same obligation as SMT-LIB2 text for the second solvers (common.cross_check_fee)
+            d = os.path.join(os.path.dirname(os.path.dirname(os.path.dirname(os.path.abspath(__file__)))), 'out', PID, 'smt')
+            os.makedirs(d, exist_ok=True)
+            f = os.path.join(d, 'fee_%s_%02d.smt2' % (c.overflow, rep.paths))
+            with open(f, 'w') as fh:
+                fh.write(sym.to_smt2(m.pc + [lemma, neq]) + '\n')
+            rep.extra.setdefault('smt2_files', []).append(f)
         # vacuity: both results reachable over all paths
         if c.solver.check(m.pc, sym.eq(val, True)) == 'sat':
             seen_true = True
